@@ -446,6 +446,8 @@ class Interp:
         if not is_sym(a) and not is_sym(b) and not isinstance(a, (SObj, list, tuple)) \
                 and isinstance(a, (int, bytes, str, float)) and isinstance(b, (int, bytes, str, float, tuple)) \
                 and not (isinstance(b, tuple) and any(not isinstance(x, (int, bytes, str, float)) for x in b)):
+            # (every operand, and every member of a tuple operand, is a plain Python value here: an exception raised by CPython below
+            # is the program's behaviour, not an artefact of symbolic objects)
             try:
                 return self.concrete_binop(op, a, b)
             except ZeroDivisionError:
